@@ -146,6 +146,25 @@ cases.append(case("wrong-overlay-lower", "overlay on d1 with another lower direc
                   host([m_proc(20, "b0"), m_dev(21, "b0"),
                         [30, 1, "0:61", "/", bp("d1"), "overlay", "overlay", "/VB/hostsrc", VB + "/layers/d1/overlayfs/upperdir", VB + "/layers/d1/overlayfs/workdir"]]),
                   [step("probe")]))
+# overlay directories that merely share a prefix with the configured ones (or extend them)
+for which, lo, up, wk in [("work-longer", bp("b0"), VB + "/layers/d1/overlayfs/upperdir", VB + "/layers/d1/overlayfs/workdir_old"),
+                          ("work-below", bp("b0"), VB + "/layers/d1/overlayfs/upperdir", VB + "/layers/d1/overlayfs/workdir/sub"),
+                          ("upper-longer", bp("b0"), VB + "/layers/d1/overlayfs/upperdir2", VB + "/layers/d1/overlayfs/workdir"),
+                          ("lower-longer", bp("b0") + "x", VB + "/layers/d1/overlayfs/upperdir", VB + "/layers/d1/overlayfs/workdir"),
+                          ("lower-below", bp("b0") + "/usr", VB + "/layers/d1/overlayfs/upperdir", VB + "/layers/d1/overlayfs/workdir")]:
+    t = Tree(); layer(t, "b0", "", IMP); layer(t, "d1", "b0", IMP)
+    t.dir(VB + "/layers/d1/overlayfs/workdir_old"); t.dir(VB + "/layers/d1/overlayfs/workdir/sub"); t.dir(VB + "/layers/d1/overlayfs/upperdir2"); t.dir(bp("b0") + "x")
+    cases.append(case("wrong-overlay-" + which, "overlay on d1 whose %s directory only shares a prefix with the configured one: error" % which.split("-")[0], t,
+                      host([m_proc(20, "b0"), m_dev(21, "b0"), [30, 1, "0:61", "/", bp("d1"), "overlay", "overlay", lo, up, wk]]),
+                      [step("probe")]))
+# a wrong-source mount on one import's mountpoint while another import lacks its mountpoint
+# directory / its host source: the wrong mount decides (error), not the missing piece
+t = Tree(); layer(t, "b0", "", IMP + ["import bind /VB/hostsrc /mnt/host"]); t.e.pop(bp("b0") + "/mnt/host", None)
+cases.append(case("wrong-source-and-missing-mountpoint", "tmpfs on the proc mountpoint and the mountpoint of another import missing: error", t,
+                  host([[20, 1, "0:40", "/", bp("b0") + "/proc", "tmpfs", "tmpfs", "", "", ""]]), [step("probe")]))
+t = Tree(); layer(t, "b0", "", IMP + ["import bind /VB/nosuch /mnt/x"])
+cases.append(case("wrong-source-and-missing-source", "tmpfs on the proc mountpoint and the host source of another import missing: error", t,
+                  host([[20, 1, "0:40", "/", bp("b0") + "/proc", "tmpfs", "tmpfs", "", "", ""]]), [step("probe")]))
 t = Tree(); layer(t, "b0", "", IMP); layer(t, "d1", "b0", IMP)
 cases.append(case("non-overlay-on-build", "a tmpfs on d1's build directory: error", t,
                   host([m_proc(20, "b0"), m_dev(21, "b0"), [30, 1, "0:41", "/", bp("d1"), "tmpfs", "tmpfs", "", "", ""]]),
